@@ -156,6 +156,11 @@ func CompareEval(d *Driver, src string, o RunOpts) EvalCmp {
 		m.Class = "timeout"
 	}
 	c.Model = m
+	if m.Err == "oracle did not converge" {
+		// thousands of distinct library calls: a limit of the oracle protocol, not a behaviour
+		c.Skipped = "oracle-rounds"
+		return c
+	}
 	if m.Err != "" {
 		c.ModelObs = "ERR " + m.Err
 		c.RealObs = res.Class
